@@ -70,7 +70,8 @@ def _modname(n):
 def opcode_pool(f):
     snippets = [b"K\x01", b"N", b"0", b"K\x02K\x030", b"cos\nsystem\n", b"cvp_sink\nhit\n", b"(", b"t", b"R",
                 b"]", b"}", b"\x8c\x01a", b"c__builtin__\neval\n", b")", b"\x85", b"2", b"q\x05", b"h\x05",
-                b"ccollections\nOrderedDict\n", b"\x80\x02", b"b"]
+                b"ccollections\nOrderedDict\n", b"\x80\x02", b"b",
+                b"(ios\ngetpid\n", b"\x8c\x02os\x8c\x06getpid\x93", b"(ivp_sink\nK\n", b"\x8c\x07vp_sink\x8c\x03hit\x93"]
     pool = []
     for s in snippets:
         pool.append(list(f.Pickled.load(s + b"."))[:-1])
